@@ -101,7 +101,11 @@ pub fn command(spec: &Spec) -> Command {
         c.env("SIMSHIM_LOG", v);
     }
     if let Some(v) = &s.plan {
-        c.env("SIMSHIM_PLAN", v);
+        // "P:<errno>:<substring>" = every mutating call on a matching path fails, for the whole run
+        match v.strip_prefix("P:") {
+            Some(rest) => c.env("SIMSHIM_FAILPATH", rest),
+            None => c.env("SIMSHIM_PLAN", v),
+        };
     }
     for (k, v) in &spec.extra_env {
         c.env(k, v);
